@@ -18,13 +18,16 @@ exception Stop
      i64: two's complement bits with the sign bit flipped;
      f64: IEEE bits, negative values bitwise complemented, others with the sign bit set (-0 is read as +0, NaN is skipped).
    enc_int: the endpoint an enumeration index stands for (mirror of Codec::from_int in harness.cpp). *)
-type codec = { name : string; enc : string -> n option; dec : n -> string; of_int : int -> string }
-let u64_codec = { name = "u64"; enc = (fun s -> Some (n_of_string s)); dec = string_of_n; of_int = string_of_int }
+type codec = { name : string; enc : string -> n option; dec : n -> string; of_int : int -> string;
+               imax : int64; isf : bool }   (* largest integer query value exact in the endpoint type; floating point? *)
+let two62 = Int64.shift_left 1L 62
+let u64_codec = { name = "u64"; enc = (fun s -> Some (n_of_string s)); dec = string_of_n; of_int = string_of_int; imax = two62; isf = false }
 let i64_codec = {
   name = "i64";
   enc = (fun s -> Some (n_of_i64 (Int64.logxor (Int64.of_string s) Int64.min_int)));
   dec = (fun c -> Printf.sprintf "%Ld" (Int64.logxor (i64_of_n c) Int64.min_int));
-  of_int = (fun e -> string_of_int (e - 4)) }
+  of_int = (fun e -> string_of_int (e - 4)); imax = two62; isf = false }
+let i32_codec = { i64_codec with name = "i32"; imax = 2147483647L }
 let f64_str (f : float) = Printf.sprintf "%.17g" f
 let f64_codec = {
   name = "f64";
@@ -35,8 +38,22 @@ let f64_codec = {
           Some (n_of_i64 (if Int64.compare b 0L < 0 then Int64.lognot b else Int64.logor b Int64.min_int)));
   dec = (fun c -> let b = i64_of_n c in
           f64_str (Int64.float_of_bits (if Int64.compare b 0L < 0 then Int64.logxor b Int64.min_int else Int64.lognot b)));
-  of_int = (fun e -> f64_str (float_of_int (e - 4) *. 0.25)) }
-let codec_of = function "i64" -> Some i64_codec | "f64" -> Some f64_codec | "u64" -> Some u64_codec | _ -> None
+  of_int = (fun e -> f64_str (float_of_int (e - 4) *. 0.25)); imax = Int64.shift_left 1L 53; isf = true }
+(* qt / pt: is the token a value the harness passes with argument type [kind]?  (mirror of Har::conv in harness.cpp) *)
+let kind_max = function "u32" -> Some 4294967295L | "usz" -> Some two62 | "i16" -> Some 32767L | "i32" -> Some 2147483647L | _ -> None
+let typed_ok (cd : codec) (kind : string) (tok : string) : bool =
+  match kind with
+  | "f32" ->
+    cd.isf && (match float_of_string_opt tok with
+               | Some d -> d >= 0.0 && Int32.float_of_bits (Int32.bits_of_float d) = d
+               | None -> false)
+  | _ ->
+    (match kind_max kind with
+     | None -> false
+     | Some qmax ->
+       tok <> "" && String.length tok <= 18 && (let ok = ref true in String.iter (fun ch -> if ch < '0' || ch > '9' then ok := false) tok; !ok)
+       && (let v = Int64.of_string tok in Int64.compare v qmax <= 0 && Int64.compare v cd.imax <= 0))
+let codec_of = function "i32" -> Some i32_codec | "i64" -> Some i64_codec | "f64" -> Some f64_codec | "u64" -> Some u64_codec | _ -> None
 
 (* output sink: normally stdout; in `enum` mode every canonical line is folded into a running FNV-1a digest *)
 let folding = ref false
@@ -115,6 +132,16 @@ let rec body lines =
            let r = for_point (match cd.enc x with Some v -> v | None -> N0) !t in
            emit (String.concat " " ("o" :: List.map string_of_n r));
            if not !folding then stat (Printf.sprintf "@q %d %d" (List.length r) (size !t |> int_of_nat))
+         | ["qt"; kind; lb; ub] when (if kind = "mix" then typed_ok cd "usz" lb && typed_ok cd "i32" ub else typed_ok cd kind lb && typed_ok cd kind ub) ->
+           (* the model: the query is converted to the endpoint type once, whatever type the arguments had *)
+           (match cd.enc lb, cd.enc ub with
+            | Some a, Some b ->
+              emit (String.concat " " ("o" :: List.map string_of_n (for_overlaps a b !t))); stat "@qtyped"
+            | _ -> emit "skip")
+         | ["pt"; kind; x] when kind <> "mix" && typed_ok cd kind x ->
+           (match cd.enc x with
+            | Some a -> emit (String.concat " " ("o" :: List.map string_of_n (for_point a !t))); stat "@qtyped"
+            | None -> emit "skip")
          | ["w"; id; hi] ->
            (match valid_id id, cd.enc hi with
             | Some i, Some ehi when member.(i) && N.leb lo_of.(i) ehi ->
@@ -146,6 +173,12 @@ and enum_script n u k cd =
   let ins = List.init n (fun j -> Printf.sprintf "i %s %s %d" (cd.of_int (fst seq.(j))) (cd.of_int (snd seq.(j))) j) in
   let qs = List.concat (List.init (u + 1) (fun lb -> List.init (u + 1 - lb) (fun d -> Printf.sprintf "q %s %s" (cd.of_int lb) (cd.of_int (lb + d)))))
            @ List.init (u + 1) (fun p -> Printf.sprintf "p %s" (cd.of_int p)) in
+  let ikinds = [| "u32"; "usz"; "i16"; "i32" |] in
+  let qs = if cd.name = "u64" then qs else
+      qs @ List.concat (List.init (u + 1) (fun lb -> if lb < 4 then [] else List.init (u + 1 - lb) (fun d ->
+              Printf.sprintf "qt %s %s %s" (if cd.isf then "f32" else ikinds.((lb + lb + d) mod 4)) (cd.of_int lb) (cd.of_int (lb + d)))))
+         @ List.concat (List.init (u + 1) (fun p -> if p < 4 then [] else
+              [Printf.sprintf "pt %s %s" (if cd.isf then "f32" else ikinds.(p mod 4)) (cd.of_int p)])) in
   let tail =
     if n >= 2 then begin
       let mx = ref 0 in
